@@ -330,6 +330,16 @@ theorem energy_nonincreasing_over_track (P : Ledger.Particles ℝ) (pid : Nat) (
 
 /-! ### non-vacuity -/
 
+/-- the hypotheses of `energy_nonincreasing_over_track` are satisfiable by a non-empty history
+    with a real loss: a particle at E = 1 loses a mean 1/4 along the step -/
+example : ∃ (P : Ledger.Particles ℝ) (steps : List (Ledger.StepIn ℝ)), steps.length = 1 ∧
+    Ledger.TrackOK P 1 1 steps ∧ ScatterOK P 1 1 steps := by
+  refine ⟨⟨fun _ => 1 / 2, fun _ => false, fun _ => none⟩,
+    [⟨true, false, true, 1 / 1000, .mean (1 / 4), false, .none⟩], rfl,
+    ⟨⟨by norm_num, ?_, trivial⟩, fun _ => trivial⟩, ⟨fun r hr => by simp at hr, fun _ => trivial⟩⟩
+  show (0 : ℝ) ≤ 1 / 4 ∧ (1 / 4 : ℝ) ≤ 1
+  constructor <;> norm_num
+
 /-- physics step (1/100) below the MSC floor (1/10): the physics step is returned, not the floor -/
 example : mscSample (1 / 100 : ℝ) (1 / 10) (1 / 10) 5 = 1 / 100 := by
   unfold mscSample; stp_simp; norm_num
